@@ -51,6 +51,19 @@ Proof.
 Qed.
 Print Assumptions C14_history.
 
+(* several requests on ONE server connection (one Requestant, pipelined or one after the
+   other): parsing the concatenation of the built requests gives, request by request, exactly
+   what parsing each alone gives - no header, length or body of request k reaches request k+1 -
+   and each is the request that was built; [x] is whatever follows on the connection *)
+Theorem C14_connection : forall o host port rs x, wf_endpoint host port = true ->
+  forallb wf_request rs = true ->
+  parse_many o (List.length rs) (flat_map (build host port) rs ++ x)
+  = map (fun r => parse_request o (build host port r)) rs
+  /\ Forall (fun r => parse_request o (build host port r) = Ok (parsed_of host port r)
+                      /\ recovered r (parsed_of host port r) = true) rs.
+Proof. exact parse_many_builds. Qed.
+Print Assumptions C14_connection.
+
 (* the layers of the proof that are of independent interest *)
 Theorem C14_utf8_roundtrip : forall s, text_ok s = true -> utf8_dec (utf8_enc s) = s.
 Proof. exact utf8_dec_enc. Qed.
